@@ -6,7 +6,13 @@ inputs drawn ONLY from the falsy values (None, 0, False, '', (), 0.0, [], {}),
 against the machines.  Oracle (independent of the model, metamorphic): the same
 operator instance run on the input with every falsy value replaced by a truthy
 token with the same equality structure must produce the corresponding output at
-the same instants."""
+the same instants.
+
+Second metamorphic family (oracle only, harness/c08_multi.py): multi-source and the
+remaining value-agnostic operators, creation functions, subjects and multicasting,
+each run twice on the same seeded interleaving of 0-3 hand-driven hot sources --
+falsy values vs truthy tokens -- and compared notification by notification."""
+import json
 import random
 
 import k2
@@ -101,18 +107,68 @@ def run(chk):
             if firsts:
                 d["model_says"] = lib.coq_show("C08", IMPORTS, f"model {firsts[0][0]}", prelude)
             chk.tie_broken(f"correspondence K2 on falsy-only inputs ({ty})", d)
-    chk.cov["distinct_nontrivial"] = len(nontrivial)
+    # ---- second family: multi-source / remaining value-agnostic operators, subjects (oracle only)
+    import c08_multi
+    m = c08_multi.run_family(chk, 80 if chk.tier == "quick" else 600)
+    chk.cov["evaluations"] += m["evaluations"]
+    chk.cov["distinct_nontrivial"] = len(nontrivial) + len(m["nontrivial"])
+    chk.cov["distinct_nontrivial_single_source_tables"] = len(nontrivial)
+    chk.cov["distinct_nontrivial_multi_source_family"] = len(m["nontrivial"])
+    chk.cov["multi_source_family"] = {k: m[k] for k in (
+        "operators", "evaluations", "cases_with_two_or_more_sources", "cases_second_source_ahead",
+        "cases_differing", "interleaving_modes")}
     chk.cov["rule"] = ("every operator of the C05 and C06 tables (numeric sum/min/max/average excluded) x seeded "
                        "instances x inputs made only of falsy values; each run twice: real falsy values vs truthy "
                        "tokens with the same equality classes; non-trivial = distinct (instance, input) with >= 2 "
-                       "elements and a non-empty output on which both runs agree")
-    chk.cov["input_distribution"] = {"per_operator": per_op, "falsy_value_occurrences": falsy_hist}
-    chk.add_samples([{"case": c[0], "output": c[1]} for cs in gal.values() for c in cs[:1]][:5])
-    return chk.finish(trusted_extra=["metamorphic oracle harness/props/C08.py (token substitution)"],
-                      assumptions=["subjects, delay and other time-based operators named by the property are "
-                                   "exercised with the same falsy-headed pool in their own checks (C15, C20-C23)"])
+                       "elements and a non-empty output on which both runs agree.  PLUS (oracle only) the catalogue of "
+                       "harness/c08_multi.py: every entry (multi-source, buffering, default/seed/key parameters, "
+                       "higher-order over inner hot sources, creation functions, subjects and multicasting with a late "
+                       "second subscriber, time-based operators on a virtual-time scheduler) x seeded explicit scripts "
+                       "interleaving 0-3 hot sources in 6 modes (random, second source first, first source first, last "
+                       "first, bursts, round-robin led by the second), terminals C/E/none per source, inline or deferred to the end in "
+                       "seeded orders; each run twice (falsy palette vs tokens with the same equality classes) and compared on "
+                       "every notification of every subscriber with its script position, escaping exceptions, probes "
+                       "and the sources' subscribe/unsubscribe instants; non-trivial = distinct (operator, parameters, "
+                       "script) on which both runs agree and the subscribers received >= 2 notifications")
+    chk.cov["input_distribution"] = {"per_operator": per_op, "falsy_value_occurrences": falsy_hist,
+                                     "multi_per_operator": m["per_operator"],
+                                     "multi_falsy_value_occurrences": m["falsy_value_occurrences"]}
+    chk.add_samples([{"case": c[0], "output": c[1]} for cs in gal.values() for c in cs[:1]][:4])
+    chk.add_samples([s for s in m["samples"] if s["operator"] in (
+        "sequence_equal(observable)", "ReplaySubject(buffer_size)", "buffer(boundaries)")], limit=7)
+    return chk.finish(trusted_extra=["metamorphic oracle harness/props/C08.py (token substitution)",
+                                     "harness/c08_multi.py: hand-driven hot sources (k2m.MSource), script generator, "
+                                     "per-operator output schemas (structural encoding by type and repr), the "
+                                     "harness-side callbacks of the catalogue (they look only at the palette position "
+                                     "of the element), reactivex VirtualTimeScheduler for the time-based entries"],
+                      assumptions=["the second family is an oracle without a Coq model: it shows that falsy values "
+                                   "behave like truthy tokens with the same equality classes on the explored scripts, "
+                                   "not that the common behaviour is right (that is the subject of C10-C13, C15, "
+                                   "C20-C23 with the same falsy-headed pool)",
+                                   "a defect that treats truthy tokens and falsy values alike, or that depends on "
+                                   "arithmetic/ordering of elements (sum, average, min, max, to_marbles; excluded), is "
+                                   "out of reach of the substitution oracle",
+                                   "find, default_if_empty() and *_or_default() without an explicit default produce a "
+                                   "literal None by design and are excluded from the substitution (C05)"])
 
 
 def replay(chk, path):
-    print(open(path).read())
-    return 1
+    rep = json.load(open(path))
+    if rep.get("family") != "multi":
+        print(open(path).read())
+        return 1
+    import c08_multi
+    fails, rF, rT = c08_multi.replay_case(rep)
+    print(f"[C08] replay of {rep['operator']}  pseed={rep['pseed']}  palette={rep.get('palette')}")
+    for line in rep.get("script_readable", []):
+        print("   ", line)
+    print("  with falsy values :", json.dumps(rF["out"], default=repr))
+    print("  with truthy tokens:", json.dumps(rT["out"], default=repr))
+    if rF["subs"] != rT["subs"]:
+        print("  source subscriptions (falsy) :", json.dumps(rF["subs"]))
+        print("  source subscriptions (tokens):", json.dumps(rT["subs"]))
+    if fails:
+        print(f"VIOLATION property=C08 replay={path}")
+        return 1
+    print("[C08] the two runs agree on the current tree: the recorded case no longer fails")
+    return 0
